@@ -171,6 +171,7 @@ def gen_abort_pair(r, maxn=10):
                 and not any(k["form"] in ("pos", "rpos") for k in first["keys"]):
             break
     first["abort"] = r.weighted([("boom", 4), ("badkey", 3), ("nofunc", 2), ("avt", 2)])
+    first.pop("reenter", None)
     if r.chance(1, 8):
         first["keys"], first["rows"] = [], [[] for _ in first["rows"]]      # the aborting key is the only key
     n = len(first["rows"])
@@ -196,6 +197,35 @@ def gen_abort_pair(r, maxn=10):
 
 
 PRE_KINDS = ["anc", "self", "sib", "allsib", "pred", "predself", "sortdesc", "sortasc", "back", "backsib"]
+
+
+def gen_reenter(r, keys):
+    """a sort key (or an order AVT) whose evaluation is the FIRST reference to a lazily evaluated top-level
+    variable/param the body of which runs another sort: the sorter is re-entered while the outer sort is active"""
+    if not r.chance(1, 5) or not keys:
+        return None
+    kind = r.weighted([("var", 4), ("param", 2), ("tmpl", 2), ("avt", 2), ("var2", 2)])
+    if kind == "avt":
+        cand = [j for j, k in enumerate(keys) if not k.get("odd")]
+    else:
+        cand = [j for j, k in enumerate(keys) if k["form"] == "attr"]
+    if not cand:
+        return None
+    return {"kind": kind, "key": r.choice(cand)}
+
+
+def expected_global(case):
+    """what {G:…} must print: the result of the sort run inside the variable body"""
+    re_ = case.get("reenter") if not case.get("abort") else None
+    if not re_ or re_["key"] >= len(case["keys"]):
+        return None
+    n = len(case["rows"])
+    if re_["kind"] == "avt":
+        if n == 0:
+            return ""
+        k = case["keys"][re_["key"]]
+        return "descending" if k["desc"] else "ascending"
+    return "".join("%d," % i for i in reversed(range(n)))
 
 
 def gen_pre_body(r):
@@ -253,7 +283,8 @@ def gen_case(r, maxn=12, maxkeys=4):
             "selvar": r.chance(1, 5), "inner_sort": r.chance(1, 6),
             "at_mode": r.chance(1, 3), "with_param": r.weighted([(False, 4), ("first", 1), ("last", 1)]),
             "inner_same": r.chance(1, 6) and n <= 12,
-            "pre_body": gen_pre_body(r), "pos_first": r.chance(3, 4)}
+            "pre_body": gen_pre_body(r), "pos_first": r.chance(3, 4),
+            "reenter": gen_reenter(r, keys)}
 
 
 UALPHA = ["a", "b", "A", "B", "z", "Z", "\u00e9", "\u00c9", "e\u0301", "\u00e0", "\u00e4", "\u00df", "ss", "1", "2", "10", " ",
@@ -411,13 +442,20 @@ def build(case):
     echo = []
     for j, k in enumerate(keys):
         a = []
-        if not (k["form"] == "dot" and j % 2 == 0):
+        re_ = case.get("reenter") if not case.get("abort") else None
+        if re_ and re_["key"] == j and re_["kind"] in ("var", "param", "tmpl", "var2") and k["form"] == "attr":
+            # the FIRST reference to the top-level variable/param $g is inside this sort key; its body sorts
+            # (re-entrant use of the execution context's NodeSorter).  The predicate is true: the key is unchanged.
+            a.append('select="@k%d[string($g) != \'~\']"' % j)
+        elif not (k["form"] == "dot" and j % 2 == 0):
             a.append('select="%s"' % key_expr(j, k))
         # else: no select attribute at all (default: string-value of the node)
         if "dt_raw" not in k:
             finalize_key(k, j)
         for nm, key in (("data-type", "dt_attr"), ("order", "order_attr"), ("case-order", "co_attr"), ("lang", "lang_attr")):
-            if k.get(key) is not None:
+            if nm == "order" and re_ and re_["kind"] == "avt" and re_["key"] == j and not k.get("odd"):
+                a.append('order="{$gord}"')      # the AVT's first reference to $gord runs a sort
+            elif k.get(key) is not None:
                 a.append('%s="%s"' % (nm, k[key]))
         sorts.append("<xsl:sort %s/>" % " ".join(a))
         e = key_expr(j, k).replace("p:probe(%d,@id,@k%d)" % (j, j), "@k%d" % j)
@@ -509,11 +547,36 @@ def build(case):
         presort = ""
     if case["nest"]:
         inner = '<xsl:for-each select="/r/g">%s</xsl:for-each>' % inner
+    globals_ = ""
+    re_ = case.get("reenter") if not case.get("abort") else None
+    if re_ and re_["key"] < len(keys):
+        SORTED = ('<xsl:for-each select="/r/g/e[@sel=\'1\']"><xsl:sort select="@id" data-type="number" order="descending"/>'
+                  '%s</xsl:for-each>')
+        if re_["kind"] == "avt":
+            kk = keys[re_["key"]] if re_["key"] < len(keys) else None
+            word = "descending" if (kk and kk["desc"]) else "ascending"
+            globals_ = '<xsl:variable name="gord">%s</xsl:variable>' % (SORTED % ('<xsl:if test="position() = 1">%s</xsl:if>' % word))
+            inner += '{G:<xsl:value-of select="$gord"/>}'
+        else:
+            if re_["kind"] == "tmpl":
+                gbody = ('<xsl:apply-templates select="/r/g/e[@sel=\'1\']" mode="gsort"><xsl:sort select="@id" data-type="number" '
+                         'order="descending"/></xsl:apply-templates>')
+                globals_ = '<xsl:template match="e" mode="gsort"><xsl:value-of select="@id"/>,</xsl:template>'
+            elif re_["kind"] == "var2":
+                # two levels: the sort inside $g has a key whose first reference to $h runs yet another sort
+                gbody = ('<xsl:for-each select="/r/g/e[@sel=\'1\']"><xsl:sort select="@id[string($h) != \'~\']" data-type="number" '
+                         'order="descending"/><xsl:value-of select="@id"/>,</xsl:for-each>')
+                globals_ = '<xsl:variable name="h">%s</xsl:variable>' % (SORTED % '<xsl:value-of select="@id"/>;')
+            else:
+                gbody = SORTED % '<xsl:value-of select="@id"/>,'
+            tag = "param" if re_["kind"] == "param" else "variable"
+            globals_ += '<xsl:%s name="g">%s</xsl:%s>' % (tag, gbody, tag)
+            inner += '{G:<xsl:value-of select="$g"/>}'
     xsl = ('<?xml version="1.0"?><xsl:stylesheet version="1.0" xmlns:xsl="http://www.w3.org/1999/XSL/Transform" '
            'xmlns:p="%s" xmlns:q="urn:verif:none" exclude-result-prefixes="p q"><xsl:output method="text"/>'
            '<xsl:template match="/">%s%s</xsl:template>%s'
-           '<xsl:template match="e" mode="back"><xsl:if test="position() = 0">x</xsl:if></xsl:template>'
-           '</xsl:stylesheet>' % (PROBE_NS, presort, inner, templ))
+           '<xsl:template match="e" mode="back"><xsl:if test="position() = 0">x</xsl:if></xsl:template>%s'
+           '</xsl:stylesheet>' % (PROBE_NS, presort, inner, templ, globals_))
     return request_line(case, xml, xsl), xml, xsl
 
 
@@ -574,6 +637,9 @@ def parse_output(text):
     """'[id|pos|last|X<extras>|e0|e1]…' -> list of (id, pos, last, [echo…], extras) ; None when malformed"""
     res = []
     s = text
+    g = s.find("{G:")
+    if g >= 0:
+        s = s[:g]
     while s:
         if not s.startswith("["):
             return None
@@ -607,5 +673,7 @@ def describe(case):
                                     ("+inner", case.get("inner_sort")), ("+mode", case.get("at_mode") and case["mode"] == "at"),
                                     ("+with-param", case.get("with_param") and case["mode"] == "at"),
                                     ("+inner-same", case.get("inner_same")),
-                                    ("+pre[%s]" % ",".join(case.get("pre_body") or []), case.get("pre_body"))) if on)
+                                    ("+pre[%s]" % ",".join(case.get("pre_body") or []), case.get("pre_body")),
+                                    ("+reenter[%s@%s]" % ((case.get("reenter") or {}).get("kind"), (case.get("reenter") or {}).get("key")),
+                                     case.get("reenter") and not case.get("abort"))) if on)
     return "%s%s keys[%s] rows[%s]" % (case["mode"], flags, ks, rows)
